@@ -81,6 +81,9 @@ def gen_case(rng, pkgbase):
                     if t["extends"].lower() in [x["name"] for x in qa["types"]] and q not in deps:
                         deps.append(q)
         packages[pname] = {"abstract": pabs, "types": ptypes, "imports": deps}
+        if deps and rng.random() < 0.4:
+            # components that import each other: the one imported first decides the reading order
+            packages[deps[0]]["imports"] = list(packages[deps[0]]["imports"]) + [pname]
         known += [t["name"] for t in ptypes]
     return ast, packages
 
@@ -96,12 +99,12 @@ def gen_guided_text(rng, ast, packages):
     seen = set()
 
     def deps(p):
+        if p in seen:
+            return
+        seen.add(p)
         for d in packages[p].get("imports", []):
-            if d not in seen:
-                deps(d)
-        if p not in seen:
-            seen.add(p)
-            avail.extend(packages[p]["types"])
+            deps(d)
+        avail.extend(packages[p]["types"])
     for p in chosen:
         deps(p)
     for t in avail:
